@@ -1,7 +1,7 @@
 """C18 — simplex solvers return the minimum-norm point (structural clauses)."""
 from . import scopes
 from ..core.report import DOMAIN_D
-from ..rules import simplex, johnson, mink, runmin, unpack
+from ..rules import simplex, johnson, mink, runmin, unpack, ericson, misc2
 
 
 def run(idx, rep, tier):
@@ -22,4 +22,6 @@ def run(idx, rep, tier):
     simplex.r_solverdispatch(idx, rep)
     johnson.r_johnson(idx, rep)
     runmin.r_runmin(idx, rep, ["distance3d.gjk._gjk_jolt"], floor=2)
+    ericson.r_ericson(idx, rep)
+    misc2.r_dupcond(idx, rep, [m.name for m in idx.lib_modules()], floor=3)
     unpack.r_unpack(idx, rep, floor=9)
